@@ -13,6 +13,34 @@ CLAIMS = {
    design="3/C11"),
 }
 
+CLAIMS.update({
+ 'C01': dict(
+   text="Deviation-bounded exhaustive schedule exploration (X1) of the real h2 client and the real h2 server joined by a simulated transport: for each scenario of a catalogue (header shapes incl. CONTINUATION, bodies from the boundary sizes, trailers, interim responses, push, windows 1/7, frame size 16385, send buffer 1/16/1024, vectored or plain writes, resets) every execution with 0, 1, 2 (quick) / 3 (thorough) deviations from the default schedule and transport answers is run to quiescence; API-level oracle (submitted vs received sequences per stream and direction, byte patterns, is_end_stream samples) plus wire-level cross-check with an independent frame parser and HPACK decoder.",
+   note="Trusted: simulator (SimIo implements only the documented AsyncRead/AsyncWrite contract), h2wire reference parser/decoder. Content outside the scenario catalogue and executions beyond the completed deviation bound are not covered.",
+   tech="stateless exhaustive exploration of bounded schedules / I/O chunkings of the real implementation (CHESS-style deviation bounding), oracle on every execution",
+   design="3/C01"),
+ 'C02': dict(
+   text="Same explorer (X1) on window-centred scenarios (receiver lowers / raises INITIAL_WINDOW_SIZE mid-stream, client second SETTINGS, shared connection window, capacity API, target window change): at every DATA frame written by either real endpoint an independent wire accountant checks the frame against stream and connection credit reconstructed from the wire exactly as the property states (ACK position in the sender's own output; WINDOW_UPDATE counted when its last byte was read by the sender's transport).",
+   note="Trusted: wire accountant in monitor.rs. Window values outside the scenario catalogue, deeper deviation levels are not covered.",
+   tech="stateless exhaustive exploration of bounded schedules of the real implementation with a wire-level reference accountant as invariant",
+   design="3/C02"),
+ 'C04': dict(
+   text="Same explorer (X1): the complete output of each real endpoint in every explored execution is fed to an RFC 9113 5.1 sender automaton (id order/parity, HEADERS first, nothing on idle, frames permitted after own END_STREAM / RST_STREAM, trailers end the stream, header-block contiguity, stream-0 vs stream frames) on scenarios with parked requests (MAX_CONCURRENT_STREAMS 1), window 0, resets and drops at every position, push, 30 KB headers, and identifier exhaustion from 2^31-5 / -3 / -1.",
+   note="Peers are legal (both endpoints are h2). Frames mandated in answer to illegal input belong to C09.",
+   tech="stateless exhaustive exploration of bounded schedules of the real implementation with a reference stream automaton on the wire",
+   design="3/C04"),
+ 'C06': dict(
+   text="Same explorer (X1) under a strict executor (a task is polled only after its waker fired; every waker is a flag owned by the explorer): every execution with <= 2/3 deviations runs to quiescence, where (a) all scripted operations must have completed, (b) a forced poll of every still-pending task and of both connection tasks must not make progress (lost wakeup otherwise), (c) quiescence must come within a horizon (livelock otherwise). Scenarios add capacity reservations, parked requests, pings, window changes in both directions.",
+   note="Cooperating peer = the other real endpoint with applications that read, release and keep polling. Schedules beyond the completed deviation bound are not covered.",
+   tech="stateless exhaustive exploration of bounded schedules under a controlled wake-only scheduler; quiescence oracle",
+   design="3/C06"),
+ 'C17': dict(
+   text="Same explorer (X1) on reset / drop scenarios (client or server, after 0/1/2 chunks, parked request, window 0, reset memory expiring at once; codes 0, 8, 2^32-1 quick / nine codes thorough): at most one RST_STREAM per stream ever, exactly one when required, caller's code, placement after HEADERS, nothing of the stream after it, other streams complete, peer handles report origin/kind/code exactly. Plus exhaustive enumeration (X3) of error codes (both half-words completely in quick, all 2^32 in thorough) through the real RST_STREAM/GOAWAY encode, parse and h2::Error mapping against the independent frame codec.",
+   note="Trusted: simulator and h2wire. GOAWAY / I/O-failure surfacing on handles is judged by C07/C15.",
+   tech="stateless exhaustive exploration of bounded schedules of the real implementation + exhaustive enumeration of the 32-bit code domain",
+   design="3/C17"),
+})
+
 NOT_YET = "check not built yet (work in progress; DESIGN.md section 3 describes the planned harness)"
 NA = {}
 
